@@ -1918,6 +1918,8 @@ func main() {
 		streamDec(r, n, pfx)
 	case "typed":
 		streamTyped(r, n, pfx)
+	case "float":
+		streamFloat(r, n, pfx)
 	case "std":
 		streamStd(r, n, pfx)
 	case "streamprog":
